@@ -5,6 +5,8 @@
 -/
 import BufrModel.Coder.Walk
 import BufrModel.Gen.PyDescriptors
+import BufrModel.Lemmas.CoderSrc
+set_option linter.unusedSimpArgs false
 namespace Bufr
 open PyGen.descriptors
 
@@ -18,5 +20,15 @@ theorem C01_src_operator_code (id : Nat) : OperatorDescriptor.operator_code ⟨i
 theorem C01_src_operand_value (id : Nat) : OperatorDescriptor.operand_value ⟨id⟩ = (yOf id : Int) := by
   simp only [OperatorDescriptor.operand_value, yOf, Int.ofNat_eq_natCast]
   rw [Int.fmod_eq_emod_of_nonneg _ (Int.natCast_nonneg 1000)]; rfl
+
+/-! ### `CoderState.cancel_new_refvals` (203000) -/
+
+/-- `cancel_new_refvals`: the dictionary of new reference values becomes empty (the model: `newRefvals := []`);
+    nothing else changes. -/
+theorem C01_src_cancel_new_refvals {D V : Type} (φ : D → Elem) (ps : PyGen.coder.CoderState.Self D V) :
+    PyGen.coder.CoderState.cancel_new_refvals ps = { ps with new_refvals := [] } ∧
+      regsOf φ (PyGen.coder.CoderState.cancel_new_refvals ps) = { regsOf φ ps with newRefvals := [] } ∧
+      (WF ps → WF (PyGen.coder.CoderState.cancel_new_refvals ps)) :=
+  ⟨rfl, rfl, fun h => h⟩
 
 end Bufr
